@@ -1132,6 +1132,34 @@ Proof.
   apply fq_changes_head_spec. vm_compute. reflexivity.
 Qed.
 
+Definition fq_fails_obj (f : list N) (line num : Z) : bool :=
+  match fixqdf f with
+  | FqFail _ (FqFatalObj l n) => (l =? line) && (n =? num)
+  | _ => false
+  end.
+
+Lemma fq_fails_obj_spec : forall f line num, fq_fails_obj f line num = true ->
+  exists partial, fixqdf f = FqFail partial (FqFatalObj line num).
+Proof.
+  intros f line num H. unfold fq_fails_obj in H. destruct (fixqdf f) as [g|g e]; [discriminate|].
+  destruct e; try discriminate. apply andb_true_iff in H. destruct H as [H1 H2].
+  apply Z.eqb_eq in H1. apply Z.eqb_eq in H2. subst. exists g. reflexivity.
+Qed.
+
+(* C17-F4: real output of --qdf --object-streams=generate --preserve-unreferenced for an input with an object stream:
+   strictly valid PDF, but the original object stream is kept as an ordinary stream whose dictionary still says
+   /Type /ObjStm, numbering rule broken at line 85; fix-qdf on the unedited file stops with
+   "<file>:85: expected object 11" (exit 2) *)
+Lemma fixqdf_preserved_objstm_refuted_lemma :
+  (exists sf, read_strict c17_w_preserved = RsOk sf) /\
+  qdf_layout c17_w_preserved = QlBad 2 85 /\
+  exists partial, fixqdf c17_w_preserved = FqFail partial (FqFatalObj 85 11).
+Proof.
+  split; [apply rs_ok_true; vm_compute; reflexivity|].
+  split; [vm_compute; reflexivity|].
+  apply fq_fails_obj_spec. vm_compute. reflexivity.
+Qed.
+
 (* the plain case, for contrast and as the non-vacuity witness of the theorems above: real --qdf output of
    minimal.pdf has no marker lines, the run reaches the end state, and fix-qdf reproduces it byte for byte *)
 Definition fq_plainb (l : list N) : bool :=
